@@ -12,9 +12,11 @@ ID = "C01"
 THEOREM_FILES = ["Summer.Props.C01", "Summer.Props.C01Step", "Summer.Props.C01Source", "Summer.Props.C01Rates"]
 TASK = "task"
 LEVEL = "proof"
-RULE = ("programs from harness/gen.py (all nine flow kinds, plain/age/strain stratifications, adjustments, mixing, time/state/parameter "
+RULE = ("(a) programs from harness/gen.py (all nine flow kinds, plain/age/strain stratifications, adjustments, mixing, time/state/parameter "
         "dependent weights); each is evaluated with one_step at interior, boundary and slightly negative states at grid and off-grid "
-        "times; a case is distinct by program hash + state, non-trivial when the model has >= 2 flows and the build succeeded")
+        "times; a case is distinct by program hash + state, non-trivial when the model has >= 2 flows and the build succeeded; "
+        "(b) every fourth program: defaults set on the model, three euler runs with different partial overrides, "
+        "(outputs[1]-outputs[0])/timestep compared with the compartment rates at (times[0], outputs[0]) under defaults + overrides")
 TRUSTED = ["Spec.flowRate / Spec.weight in lean/Summer/Spec/Rates.lean are the reading of the property's rate laws"]
 ASSUMPTIONS = ["floating-point rounding is not modelled: implementation values are compared with exact rationals at 1e-9 relative"]
 
@@ -54,6 +56,57 @@ def task(W, payload):
             d["task"] = {"module": "c01", "fn": "task", "payload": payload}
             d["program"] = prog["build"]
             out["diffs"].append(d)
+    if payload["index"] % 4 == 3:
+        euler_defaults(S, r, prog, params, payload, out)
     if payload["index"] == 0:
         out["sample"] = {"program": prog["build"][:6], "params": params, "n_comps": n}
     return out
+
+
+def euler_defaults(S, r, prog, params, payload, out):
+    """second observation point of the property: `model.run(solver='euler')`, `(outputs[1] - outputs[0]) / timestep` must be the
+    compartment rates at (times[0], outputs[0]) under the EFFECTIVE parameter set, i.e. the model's defaults overridden by what
+    this run supplies — also when an earlier run on the same model supplied other values."""
+    import numpy as np
+    I = S.I
+    keys = sorted(params)
+    if not keys:
+        return
+    base = {k: float(Fr(v)) for k, v in params.items()}
+    try:
+        I.model.set_default_parameters(dict(base))
+    except BaseException:
+        return
+    history = []
+    for step in range(3):
+        sub = [k for k in keys if r.random() < 0.5] if step < 2 else [k for k in keys if r.random() < 0.25]
+        if step == 0 and not sub:
+            sub = [keys[0]]
+        ov = {k: base[k] * r.choice([0.5, 1.5, 2.0]) for k in sub}
+        history.append(ov)
+        try:
+            I.model.run(parameters=dict(ov), solver="euler")
+            outs = np.asarray(I.model.outputs)
+            times = np.asarray(I.model.times, dtype=float)
+        except BaseException as e:
+            out["fails"].append({"what": "euler run with defaults + overrides raised", "history": history, "signature": None,
+                                 "task": {"module": "c01", "fn": "task", "payload": payload}})
+            return
+        eff = dict(base); eff.update(ov)
+        rr = I.apply({"op": "one_step", "params": [[k, float(v)] for k, v in eff.items()], "t": float(times[0]), "x": [float(v) for v in outs[0]]})
+        out["evals"] += 1
+        if not rr.get("ok") or len(times) < 2:
+            return
+        h = float(times[1] - times[0])
+        got = (outs[1] - outs[0]) / h
+        want = np.asarray(rr["comp_rates"], dtype=float)
+        if not (np.all(np.isfinite(got)) and np.all(np.isfinite(want))):
+            return
+        tol = 1e-9 * max(1.0, float(np.max(np.abs(outs[0]))) / abs(h), float(np.max(np.abs(want))))
+        if float(np.max(np.abs(got - want))) > tol:
+            out["fails"].append({"what": "(outputs[1]-outputs[0])/timestep of an euler run differs from the compartment rates under defaults + supplied parameters",
+                                 "run_number": step + 1, "history": history, "defaults": base, "euler_rate": got.tolist(), "comp_rates": want.tolist(),
+                                 "program": prog["build"], "signature": None, "task": {"module": "c01", "fn": "task", "payload": payload}})
+            return
+        out["cases"].append(prog_hash(prog["build"]) + ":euler_defaults:" + str(step))
+        out["feat"]["euler_defaults_runs"] = out["feat"].get("euler_defaults_runs", 0) + 1
